@@ -20,5 +20,26 @@ PLANS = {
         'schedule_measure': 'distinct (abstract DFA, iteration order of its Q/Sigma/F sets in the executing process) pairs',
         'assumptions': COMMON_ASSUMPTIONS,
         'expected_probes': ['has_unreachable', 'F_empty', 'F_full', 'one_state', 'sigma_empty', 'logging_on', 'nontrivial'],
+        'technique': 'deterministic simulation: seeded search over set-iteration schedules (PYTHONHASHSEED x renaming x insertion order) and the logging knob; reference-model oracle; minimised replay files',
+        'level_text': 'seeded sampling of DFAs x schedules; every result of the three minimisers is checked against an independent reference (validity, exact language equality, Moore refinement leaves every state alone, Nerode class-count bounds, argument snapshot); evidence, not proof',
+        'design_ref': 'DESIGN.md 5.2',
+        'level_note': 'trusted: /verif/ref/fa.py (cross-checked by selftest); CPython set ordering is the only scheduler; tick clock as hang guard (a call exceeding 2M ticks counts as not returning)',
+    },
+    'C20': {
+        'quick': {'rounds': 32, 'wall_cap_s': 150},
+        'thorough': {'rounds': 96, 'wall_cap_s': 1500},
+        'rule': ('cases = pairs of complete DFAs over a common alphabet (1-6 states each): renamed copies (with/without extra unreachable '
+                 'states), one side minimised, one state split, independent DFAs, single-transition and single-accepting-bit mutations, the '
+                 'same object twice; both functions x both argument orders per case (evaluations counts calls), each under a 300k-tick budget; '
+                 'states renamed per case, run under the round\'s PYTHONHASHSEED in a pristine fork. distinct = distinct abstract pair; '
+                 'non-trivial = both reachable parts have >= 2 states.'),
+        'schedule_measure': 'distinct (abstract pair, iteration order of both DFAs\' Q/Sigma/F sets) pairs; pair exploration order is set_element(todo)',
+        'assumptions': COMMON_ASSUMPTIONS + ['a call that does not return within 300000 ticks (correct code needs < 3000 on these sizes) is counted as non-terminating'],
+        'expected_probes': ['pair_isomorphic', 'pair_equivalent_not_isomorphic', 'pair_inequivalent',
+                            'same_language_different_reachable_count', 'has_unreachable', 'identical_objects', 'nontrivial'],
+        'technique': 'deterministic simulation: seeded search over pair-exploration schedules (PYTHONHASHSEED x renaming) under a simulated tick clock (bounded liveness); canonical-form oracle; minimised replay files',
+        'level_text': 'seeded sampling of DFA pairs of five classes x schedules; both functions and both argument orders must answer exactly canon(D1)==canon(D2) and must return within the tick budget; evidence, not proof',
+        'design_ref': 'DESIGN.md 5.9',
+        'level_note': 'trusted: /verif/ref/iso.py (BFS canonical form, cross-checked against brute-force bijection search); termination is judged by a deterministic tick budget, never by wall clock',
     },
 }
